@@ -42,6 +42,8 @@ def members(rng, DIM=4):
     out.append(("ConvexLipschitz norm", PF.ConvexLipschitzFunction, dict(M=1.0), nrm, None))
     out.append(("SCL huber", PF.SmoothConvexLipschitzFunction, dict(L=L, M=L * 1.0), hub, np.zeros(DIM)))
     out.append(("QG huber", PF.ConvexQGFunction, dict(L=L), hub, np.zeros(DIM)))
+    cshift = rng.normal(size=DIM) * 2
+    out.append(("QG shifted huber", PF.ConvexQGFunction, dict(L=L), (lambda x: (hub(x - cshift)[0], hub(x - cshift)[1])), cshift))
     out.append(("RsiEb quad", PF.RsiEbFunction, dict(mu=mu, L=L), quad, xs))
     out.append(("Quadratic class", PF.SmoothStronglyConvexQuadraticFunction, dict(mu=mu, L=L), quad, xs))
     # indicator of the ball of radius R: normal cone elements; support function of the ball
@@ -106,12 +108,21 @@ def _check_member(rng, name, cls, kw, orc, xs, order, DIM=4):
         if cls is PF.SmoothStronglyConvexQuadraticFunction:
             x, g, fx = f.list_of_stationary_points[0]; gv, fv = orc(xs); trip.append((x, g, fx, xs, gv, fv))
         seq = [("p", p) for p in pts]
-        if xs is not None and cls is not PF.SmoothStronglyConvexQuadraticFunction:
+        own_stat = cls in (PF.ConvexQGFunction, PF.RsiEbFunction) and order == 1 and rng.random() < .5
+        if xs is not None and cls is not PF.SmoothStronglyConvexQuadraticFunction and not own_stat:
             k = 0 if order == 0 else int(rng.integers(1, len(seq) + 1))
             seq = seq[:k] + [("s", xs)] + seq[k:]
         for kind, xv in seq:
             gv, fv = orc(xv); add(f, xv, gv, fv, stat=(kind == "s"))
     f.set_class_constraints()
+    known = {id(t[0]) for t in trip}
+    for (x, g, fx) in f.list_of_stationary_points:
+        if id(x) not in known and xs is not None and not isinstance(orc, tuple):
+            # the class supplied its own stationary sample: it stands for the true minimiser
+            gv, fv = orc(xs)
+            if x.get_is_leaf(): x._value = np.asarray(xs, dtype=float)
+            elif x._value is None: x._value = sum((w * np.zeros(DIM) for w in [0.0]), np.zeros(DIM)) if not x.decomposition_dict else None
+            if fx.get_is_leaf(): fx._value = float(fv)
     for (x, g, fx, xv, gv, fv) in trip:
         x._value = np.asarray(xv, dtype=float)
         if g.get_is_leaf(): g._value = np.asarray(gv, dtype=float)
@@ -228,6 +239,54 @@ def _declare(cname, kw, order, nsamp, with_stat):
     return cons, sorted(lmis)
 
 
+def c04_counts(n, seed, procs):
+    """completeness by counting: samples are recorded (some at the same point, some stationary), and for each
+    condition of the class the number of generated constraints must be the number of required pairs of
+    distinct samples: n (one list), n(n-1) or n(n-1)/2 (one list against itself), |stationary| x |all| minus the
+    pairs made of one sample (stationary against all)"""
+    from PEPit import PEP, Point, Expression
+    import PEPit.functions as PF, PEPit.operators as PO
+    glue_file = os.path.join(HERE, "..", ".work", "classes.json")
+    glue = {c["cls"]: c for c in json.load(open(glue_file)) if not c["inf_params"]} if os.path.exists(glue_file) else {}
+    fails, samples, distinct = [], [], set()
+    for it in range(n):
+        rnd = random.Random(seed * 2741 + it)
+        cname, kw = rnd.choice([c for c in ORDER_CLASSES if c[0] in glue and c[0] != "SmoothStronglyConvexQuadraticFunction"])
+        pep = PEP(); cls = getattr(PF, cname, None) or getattr(PO, cname)
+        f = pep.declare_function(cls, **kw)
+        pts = []
+        seq = []
+        for _ in range(rnd.randint(1, 5)):
+            r = rnd.random()
+            if r < .2:
+                x = Point(); f.add_point((x, Point(is_leaf=False, decomposition_dict=dict()), Expression())); pts.append(x); seq.append("stat")
+            elif r < .45 and pts:
+                x = rnd.choice(pts); f.oracle(x); seq.append("again")          # repeated evaluation at a recorded point (incl. stationary ones)
+            else:
+                x = Point(); f.oracle(x); pts.append(x); seq.append("new")
+        if cname in ("ConvexQGFunction", "RsiEbFunction") and not f.list_of_stationary_points: continue
+        allp = list(f.list_of_points); stat = list(f.list_of_stationary_points)
+        f.set_class_constraints()
+        desc = dict(seed=seed, it=it, cls=cname, calls=seq, samples=len(allp), stationary=len(stat))
+        distinct.add((cname, tuple(seq)))
+        names = [c.get_name() or "" for c in f.list_of_class_constraints]
+        for g in glue[cname]["glue"]:
+            l1 = allp if g["list1"] == "all" else stat
+            if g["kind"] == "one": want = len(l1)
+            else:
+                l2 = allp if g["list2"] == "all" else stat
+                want = sum(1 for i, a in enumerate(l1) for j, b in enumerate(l2) if a is not b and not (g.get("symmetry") and i > j))
+            if g["name"] == "infimal_displacement_vector" and getattr(f, "v", None) is None: continue
+            fid = f.get_name() or "Function_{}".format(f.counter)
+            got = sum(1 for nm in names if nm.startswith("IC_%s_%s(" % (fid, g["name"])))
+            if got != want:
+                fails.append(dict(what="%s, condition %s: %d constraints generated for %d required pairs of distinct samples" % (cname, g["name"], got, want),
+                                  oracle="c04_counts", input=desc, observed=got, expected=want, tags=["c04", "c04:" + cname]))
+        if it < 2: samples.append(desc)
+        if len(fails) > 5: break
+    return dict(evaluations=n, distinct=len(distinct), failures=fails[:5], samples=samples)
+
+
 def c04_orders(n, seed, procs):
     """the same samples recorded in two different orders must generate the same multiset of class
     constraints (as statements about named samples; equalities up to sign) and the same LMIs up to a
@@ -262,10 +321,18 @@ def c04_orders(n, seed, procs):
 
 # ------------------------------------------------------------------ block partitions (C15)
 def c15_blocks(n, seed, procs):
-    """blocks sum back to the point, asking again returns the same objects, one block = identity,
-    and the constraints added at solve time are exactly <x_i^k, x_j^l> = 0 for k > l"""
+    """blocks sum back to the point (also for combination points nobody keeps a reference to, and for
+    points built after those were freed), asking again returns the same objects, one block = identity, and
+    the constraints generated at solve time are exactly <x_i^k, x_j^l> = 0 for k > l over all decomposed
+    points -- also when more points are decomposed between two generations"""
+    import gc
     from PEPit import PEP, Point
     fails, samples, distinct = [], [], set()
+    def sumback(blocks):
+        tot = {}
+        for b in blocks:
+            for kk, vv in pdict(b).items(): tot[kk] = tot.get(kk, 0) + vv
+        return {k: v for k, v in tot.items() if v != 0}
     for it in range(n):
         rnd = random.Random(seed * 3571 + it)
         pep = PEP()
@@ -276,39 +343,47 @@ def c15_blocks(n, seed, procs):
         for _ in range(rnd.randint(0, 2)):
             pts.append(float(rnd.choice(SC)) * rnd.choice(pts) + float(rnd.choice(SC)) * rnd.choice(pts))
         chosen = []
-        for _ in range(rnd.randint(1, 4)):
-            x = rnd.choice(pts); k = rnd.randrange(d)
-            b = part.get_block(x, k)
-            if x not in chosen: chosen.append(x)
+        for _ in range(rnd.randint(1, 3)):
+            x = rnd.choice(pts); part.get_block(x, rnd.randrange(d))
+            if not any(x is c for c in chosen): chosen.append(x)
         desc = dict(seed=seed, it=it, d=d, decomposed=[str(pdict(x)) for x in chosen])
+        def bad(msg, **kw): fails.append(dict(what=msg, oracle="c15_blocks", input=desc, tags=["c15"], **kw))
         for x in chosen:
-            bl = [part.get_block(x, k) for k in range(d)]
-            again = [part.get_block(x, k) for k in range(d)]
-            if any(a is not b for a, b in zip(bl, again)):
-                fails.append(dict(what="asking again for the blocks of a point returns other objects", oracle="c15_blocks", input=desc, tags=["c15"]))
-            tot = {}
-            for b in bl:
-                for kk, vv in pdict(b).items(): tot[kk] = tot.get(kk, 0) + vv
-            tot = {k: v for k, v in tot.items() if v != 0}
-            if tot != pdict(x):
-                fails.append(dict(what="blocks do not sum back to the point", oracle="c15_blocks", input=desc, observed=str(tot), expected=str(pdict(x)), tags=["c15"]))
-            if d == 1 and pdict(bl[0]) != pdict(x):
-                fails.append(dict(what="one-block partition is not the identity", oracle="c15_blocks", input=desc, tags=["c15"]))
+            bl = [part.get_block(x, k) for k in range(d)]; again = [part.get_block(x, k) for k in range(d)]
+            if any(a is not b for a, b in zip(bl, again)): bad("asking again for the blocks of a point returns other objects")
+            if sumback(bl) != pdict(x): bad("blocks do not sum back to the point", observed=str(sumback(bl)), expected=str(pdict(x)))
+            if d == 1 and pdict(bl[0]) != pdict(x): bad("one-block partition is not the identity")
+        ntmp = rnd.randint(0, 5)
+        for _ in range(ntmp):           # temporaries: decomposed, checked, dropped
+            a_, b_ = rnd.choice(leaves), rnd.choice(leaves); c_ = float(rnd.choice([2, 3, -1, 4, 5]))
+            want = pdict(a_ - c_ * b_)
+            got = sumback([part.get_block(a_ - c_ * b_, 0)] if d == 1 else (lambda t: [part.get_block(t, k) for k in range(d)])(a_ - c_ * b_))
+            if got != want: bad("blocks of an unreferenced combination point do not sum back to it", observed=str(got), expected=str(want))
+        gc.collect()
+        for _ in range(3):              # points built after temporaries died must get blocks of their own
+            fp = rnd.choice(leaves) * 1.0 - float(rnd.choice([2, 3, 7])) * rnd.choice(leaves)
+            got = sumback([part.get_block(fp, k) for k in range(d)])
+            if got != pdict(fp): bad("blocks returned for a newly built point are those of another point", observed=str(got), expected=str(pdict(fp)))
+            chosen.append(fp)
+        def expected():
+            vals = list(part.blocks_dict.values()); out = []
+            for xi in vals:
+                for xj in vals:
+                    for k in range(d):
+                        for l in range(k): out.append(str(sorted(edict(xi[k] * xj[l]).items())) + "equality")
+            return out
         before = len(part.list_of_constraints)
         part.add_partition_constraints()
         got = sorted(str(sorted(edict(c.expression).items())) + c.equality_or_inequality for c in part.list_of_constraints[before:])
-        want = []
-        for xi in chosen:
-            for xj in chosen:
-                for k in range(d):
-                    for l in range(d):
-                        if k > l:
-                            e = part.get_block(xi, k) * part.get_block(xj, l)
-                            want.append(str(sorted(edict(e).items())) + "equality")
-        if got != sorted(want):
-            fails.append(dict(what="orthogonality constraints differ from {<x_i^k, x_j^l> = 0 : k > l}: %d generated, %d expected" % (len(got), len(want)),
-                              oracle="c15_blocks", input=desc, tags=["c15"]))
-        distinct.add((d, len(chosen), tuple(desc["decomposed"])))
+        want = sorted(expected())
+        if got != want: bad("orthogonality constraints differ from {<x_i^k, x_j^l> = 0 : k > l}: %d generated, %d expected" % (len(got), len(want)))
+        if rnd.random() < .6:           # second generation after one more point was decomposed (a second solve)
+            extra = rnd.choice(leaves) + 2.0 * rnd.choice(leaves); part.get_block(extra, 0)
+            part.add_partition_constraints()
+            got_set = {str(sorted(edict(c.expression).items())) + c.equality_or_inequality for c in part.list_of_constraints[before:]}
+            missing = set(expected()) - got_set
+            if missing: bad("after decomposing one more point and generating again, %d orthogonality relation(s) between old and new points are missing" % len(missing))
+        distinct.add((d, len(chosen), ntmp, tuple(desc["decomposed"])))
         if it < 2: samples.append(desc)
         if len(fails) > 5: break
     return dict(evaluations=n, distinct=len(distinct), failures=fails[:5], samples=samples)
@@ -321,11 +396,26 @@ def build_model(rnd, kind=None):
     from PEPit import PEP, Point, Expression
     import PEPit.functions as PF, PEPit.operators as PO
     from PEPit.primitive_steps import proximal_step
-    kinds = ["gd_ssc", "gd_sc", "pgd", "ppa_op", "gd_quad", "lmi_user", "two_metrics", "blocks", "qg", "linop", "composite"]
+    kinds = ["gd_ssc", "gd_sc", "pgd", "ppa_op", "gd_quad", "lmi_user", "two_metrics", "blocks", "qg", "linop", "composite", "lmi_function", "lmi_two_sources", "lmi_nonsym"]
     kind = kind or rnd.choice(kinds)
     pep = PEP(); info = dict(kind=kind)
     mu, L = rnd.choice([0.1, 0.25, 0.5]), rnd.choice([1.0, 2.0]); gamma = rnd.choice([0.5, 1.0, 1.5]) / L; n = rnd.randint(1, 2)
     info.update(mu=mu, L=L, gamma=gamma, n=n)
+    if kind in ("lmi_function", "lmi_two_sources", "lmi_nonsym"):
+        # one gradient step; the metric is an auxiliary expression t tied to ||x1 - xs||^2 through LMIs with a constant entry
+        f = pep.declare_function(PF.SmoothStronglyConvexFunction, mu=mu, L=L)
+        xs = f.stationary_point(); x0 = pep.set_initial_point(); pep.set_initial_condition((x0 - xs) ** 2 <= 1)
+        x1 = x0 - gamma * f.gradient(x0); a = (x1 - xs) ** 2
+        t = Expression()
+        if kind == "lmi_function":
+            f.add_psd_matrix([[a, t], [t, 1.0 + 0 * a]]); pep.set_performance_metric(t)
+        elif kind == "lmi_two_sources":
+            u = Expression()
+            pep.add_psd_matrix([[a, t], [t, 1.0 + 0 * a]]); f.add_psd_matrix([[t + 1, u], [u, 1.0 + 0 * a]]); pep.set_performance_metric(u)
+        else:
+            u = Expression()
+            pep.add_psd_matrix([[a, t], [u, 1.0 + 0 * a]]); pep.add_constraint(t <= 2); pep.set_performance_metric(t)
+        return pep, info
     if kind in ("gd_ssc", "gd_sc", "two_metrics", "lmi_user", "gd_quad", "qg", "composite"):
         if kind == "gd_sc": f = pep.declare_function(PF.SmoothConvexFunction, L=L)
         elif kind == "gd_quad": f = pep.declare_function(PF.SmoothStronglyConvexQuadraticFunction, mu=mu, L=L)
@@ -406,7 +496,7 @@ def certificate_check(pep, tau, info, desc, oracle_name):
         fails.append(dict(what="multiplier sign / PSD violated: min lambda %.2e, min eig S %.2e, min eig Lambda %.2e" % (lam_min, s_min, L_min), oracle=oracle_name, input=desc, tags=tags))
     if abs(const - tau) > 1e-7 * scale:
         fails.append(dict(what="returned dual value %.9g is not the constant of the identity %.9g" % (tau, const), oracle=oracle_name, input=desc, tags=tags))
-    return fails, dict(residual=resid, min_lambda=lam_min)
+    return fails, dict(residual=resid, min_lambda=lam_min, const=const)
 
 
 def c11_backends(n, seed, procs):
@@ -432,6 +522,7 @@ def c11_backends(n, seed, procs):
             with contextlib.redirect_stdout(buf):
                 t_m = pep2.solve(verbose=0, **kw)
         except Exception as ex:
+            if type(ex).__name__ == "SolverError": continue
             if t_c not in (None, "inconclusive"):
                 fails.append(dict(what="MOSEK back-end raises %s: %s on a model the cvxpy back-end solves (%.6g)" % (type(ex).__name__, str(ex)[:80], t_c), oracle="c11_backends", input=desc, tags=["c11"]))
             continue
@@ -523,6 +614,101 @@ def c14_dimred(n, seed, procs):
     return dict(evaluations=ev, distinct=len(distinct), failures=fails[:5], samples=samples)
 
 
+def c05_sent(n, seed, procs):
+    """what reaches the solver at each solve, counted independently of the library's bookkeeping: a recording
+    wrapper is given to PEP._solve_with_wrapper; every declared constraint / LMI / metric must arrive exactly as
+    often as declared, class constraints must be those of the CURRENT samples (also at a second solve after the
+    model was extended), and nothing else may arrive"""
+    import corr_world as cw
+    from PEPit import Function, Constraint, BlockPartition
+    fails, samples, distinct = [], [], set()
+    def canon(c): return str(sorted(edict(c.expression).items())) + c.equality_or_inequality
+    for it in range(n):
+        rnd = random.Random(seed * 4241 + it)
+        pep, info = build_model(rnd)
+        desc = dict(seed=seed, it=it, model=info)
+        for solve_no in (1, 2):
+            w = cw.ScriptedWrapper()
+            with contextlib.redirect_stdout(io.StringIO()):
+                pep._solve_with_wrapper(w, verbose=0)
+            sent_c = [c for k, c in w.sent if k == "C"]; sent_m = [m for k, m in w.sent if k == "P"]
+            # expected, from the declarations
+            leaf = [f_ for f_ in Function.list_of_functions if f_.get_is_leaf()]
+            exp_c = []
+            exp_c += [canon(c) for c in pep.list_of_constraints]
+            for f_ in Function.list_of_functions: exp_c += [canon(c) for c in f_.list_of_constraints]
+            n_metric = len(pep.list_of_performance_metrics)
+            for f_ in leaf:
+                cur = [canon(c) for c in f_.list_of_class_constraints]            # what the library generated for this solve
+                f_.set_class_constraints()                                         # regenerate from the current samples
+                regen = [canon(c) for c in f_.list_of_class_constraints]
+                if sorted(cur) != sorted(regen):
+                    fails.append(dict(what="solve %d: the class constraints sent for %s (%d) are not those of its current samples (%d)" % (solve_no, type(f_).__name__, len(cur), len(regen)),
+                                      oracle="c05_sent", input=dict(desc, solve=solve_no), tags=["c05"]))
+                exp_c += cur
+            part_c = [canon(c) for p_ in BlockPartition.list_of_partitions for c in p_.list_of_constraints]
+            got = sorted(canon(c) for c in sent_c)
+            # metrics arrive as `objective <= metric`: count them, compare the rest as multisets
+            n_obj = sum(1 for c in sent_c if any(getattr(k, "counter", None) == pep.objective.counter and hasattr(k, "get_is_leaf") for k in c.expression.decomposition_dict))
+            rest = sorted(canon(c) for c in sent_c if not any(k is pep.objective for k in c.expression.decomposition_dict))
+            if sorted(exp_c + part_c) != rest:
+                fails.append(dict(what="solve %d: %d scalar constraints reach the solver, %d are declared (user, function-level, class, partition)" % (solve_no, len(rest), len(exp_c) + len(part_c)),
+                                  oracle="c05_sent", input=dict(desc, solve=solve_no), tags=["c05"] + (["c13-partition-growth"] if solve_no == 2 and part_c else [])))
+            if len(sent_c) - len(rest) != n_metric:
+                fails.append(dict(what="solve %d: %d metric constraints sent for %d metrics" % (solve_no, len(sent_c) - len(rest), n_metric), oracle="c05_sent", input=dict(desc, solve=solve_no), tags=["c05"]))
+            exp_m = list(pep.list_of_psd) + [m for f_ in Function.list_of_functions for m in f_.list_of_psd] + [m for f_ in leaf for m in f_.list_of_class_psd]
+            if len(sent_m) != len(exp_m):
+                fails.append(dict(what="solve %d: %d LMIs reach the solver, %d are declared" % (solve_no, len(sent_m), len(exp_m)), oracle="c05_sent", input=dict(desc, solve=solve_no), tags=["c05"]))
+            if solve_no == 1:
+                # extend the model through a leaf function before the second solve
+                lf = [f_ for f_ in leaf if f_.list_of_points and type(f_).__name__ != "Function"]
+                if lf:
+                    f_ = rnd.choice(lf); x_ = f_.list_of_points[0][0]
+                    f_.gradient(x_ - 0.5 * f_.list_of_points[-1][0] if len(f_.list_of_points) > 1 else x_ * 2.0)
+        distinct.add(json.dumps(info, sort_keys=True))
+        if it < 2: samples.append(dict(model=info, sent_scalar=len(sent_c), sent_lmi=len(sent_m)))
+        if len([f for f in fails if "c13-partition-growth" not in f["tags"]]) > 5: break
+    fails.sort(key=lambda f: "c13-partition-growth" in f["tags"])
+    return dict(evaluations=n, distinct=len(distinct), failures=fails[:5], samples=samples)
+
+
+def c11_heuristic(n, seed, procs):
+    """the dimension-reduction objective through both back-ends: the same positive definite weight W is given to
+    `prepare_heuristic / heuristic / solve` of the cvxpy wrapper and of the MOSEK wrapper (stand-in): the minimal
+    <W, G> must agree"""
+    from PEPit import PEP, Point
+    from PEPit.wrappers.cvxpy_wrapper import CvxpyWrapper
+    from PEPit.wrappers.mosek_wrapper import MosekWrapper
+    fails, samples, distinct = [], [], set()
+    for it in range(n):
+        rnd = random.Random(seed * 9949 + it); st = rnd.getstate()
+        vals = []
+        for W_cls in (CvxpyWrapper, MosekWrapper):
+            r2 = random.Random(); r2.setstate(st)
+            pep, info = build_model(r2, r2.choice(["gd_ssc", "gd_sc", "pgd", "ppa_op"]))
+            w = W_cls(verbose=0)
+            try:
+                with contextlib.redirect_stdout(io.StringIO()):
+                    pep._solve_with_wrapper(w, verbose=0, **({"solver": "CLARABEL"} if W_cls is CvxpyWrapper else {}))
+                    wc = float(pep.objective.eval())
+                    rng = np.random.default_rng(seed * 31 + it); n_ = Point.counter
+                    A = rng.normal(size=(n_, n_)); Wm = A @ A.T + np.eye(n_)
+                    w.prepare_heuristic(wc, 1e-4); w.heuristic(Wm)
+                    w.solve(**({"solver": "CLARABEL"} if W_cls is CvxpyWrapper else {}))
+                    G, _ = w.get_primal_variables()
+                vals.append(float(np.sum(Wm * G)))
+            except Exception as ex:
+                vals.append("%s" % type(ex).__name__)
+        desc = dict(seed=seed, it=it, model=info)
+        distinct.add(json.dumps(info, sort_keys=True))
+        if isinstance(vals[0], float) and isinstance(vals[1], float):
+            if abs(vals[0] - vals[1]) > 1e-4 * max(1.0, abs(vals[0])):
+                fails.append(dict(what="min <W, G> under objective >= wc - tol: cvxpy back-end %.8g, MOSEK back-end %.8g" % (vals[0], vals[1]), oracle="c11_heuristic", input=desc, tags=["c11"]))
+        if it < 2: samples.append(dict(desc, cvxpy=vals[0], mosek_path=vals[1]))
+        if len(fails) > 3: break
+    return dict(evaluations=n, distinct=len(distinct), failures=fails[:5], samples=samples)
+
+
 def c01_certificate(n, seed, procs):
     """after a real solve, rebuild the identity objective - tau = sum(lambda*constraint) - <S,G> - sum<Lambda,T>
     from the exposed multipliers, independently of PEPit's own check: coefficient residual, signs, PSD-ness,
@@ -533,11 +719,19 @@ def c01_certificate(n, seed, procs):
     for it in range(n):
         rnd = random.Random(seed * 7369 + it)
         pep, info = build_model(rnd)
-        tau = quiet_solve(pep, return_primal_or_dual="dual")
+        heur = rnd.choice([None, None, None, "trace", "logdet1"])
+        info = dict(info, heuristic=heur)
+        tau = quiet_solve(pep, return_primal_or_dual="dual", **({"dimension_reduction_heuristic": heur} if heur else {}))
         ev += 1
         if tau is None or tau == "inconclusive": continue
         distinct.add(json.dumps(info, sort_keys=True))
-        cons = pep._list_of_constraints_sent_to_wrapper; psds = pep._list_of_psd_sent_to_wrapper
+        # every LMI declared anywhere must be part of the certificate: take them from the declarations, not from the library's bookkeeping
+        from PEPit import Function
+        declared = list(pep.list_of_psd) + [m for f_ in Function.list_of_functions for m in list(f_.list_of_psd) + (list(f_.list_of_class_psd) if f_.get_is_leaf() else [])]
+        tracked = pep._list_of_psd_sent_to_wrapper
+        if sorted(map(id, declared)) != sorted(map(id, tracked)):
+            fails.append(dict(what="%d LMI(s) are declared, %d are part of the reconstructed certificate" % (len(declared), len(tracked)), oracle="c01_certificate", input=dict(seed=seed, it=it, model=info), tags=["c01"]))
+        cons = pep._list_of_constraints_sent_to_wrapper; psds = declared
         comb = -np.dot(Point.list_of_leaf_points, np.dot(pep.residual, Point.list_of_leaf_points))
         for m in psds: comb = comb - np.sum(m.eval_dual() * m.matrix_of_expressions)
         for c in cons: comb = comb + c.eval_dual() * c.expression
@@ -568,8 +762,10 @@ def c02_instance(n, seed, procs):
     fails, samples, distinct, ev = [], [], set(), 0
     for it in range(n):
         rnd = random.Random(seed * 9173 + it)
-        pep, info = build_model(rnd)
-        tau = quiet_solve(pep, return_primal_or_dual="dual")
+        pep, info = (scaled_model(rnd) if rnd.random() < .3 else build_model(rnd))
+        heur = rnd.choice([None, None, "trace", "logdet1"])
+        info = dict(info, heuristic=heur)
+        tau = quiet_solve(pep, return_primal_or_dual="dual", **({"dimension_reduction_heuristic": heur} if heur else {}))
         ev += 1
         if tau is None or tau == "inconclusive": continue
         distinct.add(json.dumps(info, sort_keys=True))
@@ -578,6 +774,10 @@ def c02_instance(n, seed, procs):
         G = np.asarray(pep.G_value, dtype=float)
         w, V = np.linalg.eigh((G + G.T) / 2); Gp = V @ np.diag(np.maximum(w, 0)) @ V.T
         sc = max(1.0, float(np.abs(G).max()))
+        small = max(abs(tau), 1e-12)
+        Gs = np.asarray(getattr(pep.wrapper, "optimal_G", G), dtype=float) if hasattr(pep, "wrapper") else G
+        if np.abs(G - Gs).max() > 1e-9 * sc:
+            fails.append(dict(what="PEP.G_value differs from the Gram matrix found by the solver by %.2e" % np.abs(G - Gs).max(), oracle="c02_instance", input=desc, tags=["c02"]))
         if np.abs(P.T @ P - Gp).max() > 1e-6 * sc:
             fails.append(dict(what="inner products of evaluated leaf points differ from the PSD projection of G by %.2e" % np.abs(P.T @ P - Gp).max(), oracle="c02_instance", input=desc, tags=["c02"]))
         # derived objects built after the solve
@@ -600,8 +800,8 @@ def c02_instance(n, seed, procs):
             v = float(c.expression.eval()); worst = max(worst, v if c.equality_or_inequality == "inequality" else abs(v))
         for m in pep._list_of_psd_sent_to_wrapper:
             worst = max(worst, -min_eig(m.eval()))
-        if worst > 1e-5 * sc:
-            fails.append(dict(what="a sent constraint / LMI is violated at the returned instance by %.2e" % worst, oracle="c02_instance", input=desc, tags=["c02"]))
+        if worst > max(1e-5, 1e-2 * small):
+            fails.append(dict(what="a sent constraint / LMI is violated at the returned instance by %.2e (value %.2e)" % (worst, tau), oracle="c02_instance", input=desc, tags=["c02"]))
         mets = [float(m.eval()) for m in pep.list_of_performance_metrics]
         if abs(float(pep.objective.eval()) - min(mets)) > 1e-5 * max(1.0, abs(min(mets))):
             fails.append(dict(what="objective %.8g differs from the smallest metric %.8g" % (pep.objective.eval(), min(mets)), oracle="c02_instance", input=desc, tags=["c02"]))
@@ -625,7 +825,7 @@ def c16_unsolved(n, seed, procs):
     fails, samples, distinct = [], [], set()
     def probe(objs, desc, stage):
         for nm, o, acc in objs:
-            for a in acc:
+            for a in acc + acc:                  # asking twice must raise twice (no partial result may be cached)
                 try:
                     r = getattr(o, a)()
                     fails.append(dict(what="%s.%s() %s returns %r instead of raising ValueError" % (nm, a, stage, r), oracle="c16_unsolved", input=desc, tags=["c16"]))
@@ -658,7 +858,11 @@ def c16_unsolved(n, seed, procs):
             if mode == "infeasible":
                 pep.add_constraint(c)
                 if rnd.random() < .3: pep.add_psd_matrix([[e + 1, v], [v, e + 1]])
-            r = quiet_solve(pep)
+            try:
+                r = quiet_solve(pep)
+            except Exception as ex:
+                fails.append(dict(what="solve of an %s model raises %s instead of returning None" % (mode, type(ex).__name__), oracle="c16_unsolved", input=desc, tags=["c16"]))
+                r = None
             if r == "inconclusive": continue
             if r is not None and not (isinstance(r, float) and (math.isinf(r) or math.isnan(r))) :
                 # a finite number for a model without finite optimum
@@ -666,6 +870,16 @@ def c16_unsolved(n, seed, procs):
             elif r is not None:
                 fails.append(dict(what="solve returned %r (not None) for an %s model" % (r, mode), oracle="c16_unsolved", input=desc, tags=["c16"]))
             probe(objs, desc, "after a solve that found no finite value")
+        if it % 3 == 0:
+            # after a successful solve of another model: objects involving a leaf created afterwards have no value
+            pep3 = PEP(); f3 = pep3.declare_function(PF.SmoothConvexFunction, L=1.); xs3 = f3.stationary_point(); y0 = pep3.set_initial_point()
+            pep3.set_initial_condition((y0 - xs3) ** 2 <= 1); y1 = y0 - f3.gradient(y0); pep3.set_performance_metric(f3(y1) - f3(xs3))
+            if quiet_solve(pep3) not in (None, "inconclusive"):
+                z = Point(); ze = Expression()
+                late = [("solved + new leaf point", rnd.choice([y1 + z / 2, y0 - z, z / 2 + y1]), ["eval"]), ("new leaf point", z, ["eval"]),
+                        ("expression with a new leaf point", (y1 - z) ** 2, ["eval"]), ("expression with a new leaf expression", f3(y1) + ze, ["eval"]),
+                        ("constraint never sent", ((y1 - xs3) ** 2 <= 3), ["eval_dual"])]
+                probe(late, dict(desc, stage="after a solve, objects involving leaves created later"), "for an object that has no value in the solved model")
         if it % 5 == 0:
             pep2 = PEP(); f2 = pep2.declare_function(PF.SmoothConvexFunction, L=1.); xs2 = f2.stationary_point(); y0 = pep2.set_initial_point()
             pep2.set_initial_condition((y0 - xs2) ** 2 <= 1); pep2.set_performance_metric(f2(y0 - f2.gradient(y0)) - f2(xs2))
@@ -679,7 +893,7 @@ def c16_unsolved(n, seed, procs):
     return dict(evaluations=n, distinct=len(distinct), failures=fails[:5], samples=samples)
 
 
-ORACLES = dict(c14_dimred=c14_dimred, c11_backends=c11_backends, c03_members=c03_members, c04_orders=c04_orders, c15_blocks=c15_blocks, c01_certificate=c01_certificate,
+ORACLES = dict(c04_counts=c04_counts, c11_heuristic=c11_heuristic, c05_sent=c05_sent, c14_dimred=c14_dimred, c11_backends=c11_backends, c03_members=c03_members, c04_orders=c04_orders, c15_blocks=c15_blocks, c01_certificate=c01_certificate,
                c02_instance=c02_instance, c16_unsolved=c16_unsolved)
 PARALLEL = {"c01_certificate", "c02_instance", "c11_backends", "c14_dimred"}
 try:
